@@ -118,8 +118,9 @@ def serStmt : Nat → Stmt → Dict → Dict → Option (List Bool × Dict × Di
       if p.length = alignBits pos then some (p, acc ++ [(t, .leaf (.bits p))], d.erase t) else none
     | _ => none
   | _, .computed t v, d, acc =>
-    -- computed values are not supplied and the target must be fresh (else ReusedTargetError)
-    if d.has t || acc.has t then none else some ([], acc ++ [(t, .leaf (.int v))], d)
+    -- "any existing value in the context will be overwritten"; a target that was already
+    -- accessed is a ReusedTargetError
+    if acc.has t then none else some ([], acc ++ [(t, .leaf (.int v))], d.erase t)
 def serBody : Nat → List Stmt → Dict → Dict → Option (List Bool × Dict × Dict)
   | _, [], d, acc => some ([], acc, d)
   | pos, s :: rest, d, acc =>
